@@ -58,6 +58,7 @@ type callTokenData struct {
 type cursorTokenData struct {
 	CreatedAt int64
 	CallID    string // the call token this cursor belongs to
+	Method    string // the stream method that minted this cursor; no other method's route accepts it
 	State     interface{}
 }
 
@@ -464,9 +465,16 @@ func (h *HttpServer) packCallToken(callID string, outputSchema *arrow.Schema, au
 // packCursorToken seals the advancing half. Re-minted every turn; this is
 // the only token a response returns.
 func (h *HttpServer) packCursorToken(callID string, state interface{}, auth *AuthContext) ([]byte, error) {
+	return h.packCursorTokenFor(callID, "", state, auth)
+}
+
+// packCursorTokenFor is packCursorToken for a named stream method: the
+// cursor records the method so that no other method's route accepts it.
+func (h *HttpServer) packCursorTokenFor(callID string, method string, state interface{}, auth *AuthContext) ([]byte, error) {
 	data := cursorTokenData{
 		CreatedAt: time.Now().Unix(),
 		CallID:    callID,
+		Method:    method,
 		State:     state,
 	}
 	return h.sealToken(cursorTokenVersion, &data, stateTokenAad(auth))
